@@ -36,3 +36,68 @@ vproof! {
         kani::cover!(res == Some(0), "InvalidProbability reachable");
     }
 }
+
+// ------------------------------------------------------------------------------------------
+// C02: StandardGeometric exact law; Geometric assembly (d << k) + m
+// ------------------------------------------------------------------------------------------
+
+//@ id: c02_standard_geometric
+//@ prop: C02
+//@ tier: quick
+//@ cap: 300
+//@ funcs: StandardGeometric::sample
+//@ bounds: every pair of words (the all-zero first word adds 64 and continues)
+//@ assumes: none
+#[kani::proof]
+#[kani::unwind(4)]
+fn c02_standard_geometric() {
+    let mut rng = SymRng::new(2);
+    let (w0, w1) = (rng.words[0], rng.words[1]);
+    let r = StandardGeometric.sample(&mut rng);
+    if w0 != 0 {
+        // result == r  <=>  w0 in [2^(63-r), 2^(64-r)): exactly 2^(63-r) of the 2^64 words, i.e. P(r) = 2^-(r+1)
+        vassert!(rng.pos == 1, "StandardGeometric: consumed more than one word for a non-zero word");
+        vassert!(r < 64 && (w0 >> (63 - r)) == 1, "StandardGeometric: result r does not correspond to the word interval [2^(63-r), 2^(64-r))");
+    } else {
+        vassert!(rng.pos == 2, "StandardGeometric: an all-zero word must be followed by another draw");
+        vassert!(r >= 64 && r < 128 && (w1 >> (127 - r)) == 1, "StandardGeometric: result after an all-zero word is not 64 + leading zeros of the next word");
+    }
+    kani::cover!(r == 0, "r = 0");
+    kani::cover!(r == 63, "r = 63");
+    kani::cover!(r == 100, "r = 100");
+}
+
+//@ id: c03_geometric
+//@ prop: C03
+//@ tier: quick
+//@ cap: 900
+//@ funcs: Geometric::new; Geometric::sample (trivial algorithm for p >= 2/3, pi == 1 shortcut, (d << k) + m assembly)
+//@ bounds: p = 0 or p in [2^-8, 1]; returns within 4 words
+//@ assumes: f64::powi, f64::powf by contract
+vproof! {
+    #[kani::unwind(12)]
+    fn c03_geometric() {
+        let p: f64 = kani::any();
+        kani::assume(!(p > 0.0 && p < 0.00390625));
+        let d = match Geometric::new(p) { Ok(d) => d, Err(_) => return };
+        let mut rng = SymRng::new(4);
+        let words = rng.words;
+        let x = d.sample(&mut rng);
+        if p == 0.0 || 1.0 - p == 1.0 {
+            vassert!(x == u64::MAX && rng.pos == 0, "Geometric(0) must return u64::MAX without drawing");
+        } else if p >= 2.0 / 3.0 {
+            vassert!(x as usize + 1 == rng.pos, "Geometric(p >= 2/3): result is not (number of draws - 1)");
+        } else {
+            // D draws (d+1 words) then rejection trials of 2 words each; within 4 words: (d, trials) = (0,1) or (1,1)
+            let k = d.k;
+            vassert!(k >= 1 && k <= 10, "Geometric: k out of range");
+            vassert!(rng.pos == 3 || rng.pos == 4, "Geometric: unexpected number of words");
+            let dd = (rng.pos - 3) as u64;
+            let m = words[rng.pos - 2] & ((1u64 << k) - 1);
+            vassert!(x == (dd << k) + m, "Geometric: result is not (d << k) + m with m the accepted low bits");
+        }
+        kani::cover!(p == 0.0, "p = 0");
+        kani::cover!(p >= 2.0 / 3.0 && rng.pos == 2, "trivial algorithm, one failure");
+        kani::cover!(p < 0.5 && p > 0.0 && rng.pos == 4, "split algorithm, d = 1");
+    }
+}
